@@ -83,7 +83,7 @@ def c05(pid, tier, seed, selftest=False):
     cfgs = [{"cmd": "decrypt", "cause": "none", "prior": "absent", "inp": inp, "outp": outp, "kr": kr, "long": lng,
              "alias": not lng, "sender": snd}
             for snd in ("first", "last", "absent") for inp in ("file", "stdin") for outp in ("file", "stdout")
-            for kr in ("opt", "env") for lng in (False, True)]
+            for kr in ("opt", "env", "both") for lng in (False, True)]
     cevs = checks_cli.run_configs(rep, pid, "cli-sender", w, cfgs, ["C05_"])
     rep.extra["cli_sender_reports"] = {k: sum(1 for e in cevs if e["named"] == k) for k in set(e["named"] for e in cevs)}
     rep.exhaustive = True
@@ -181,6 +181,17 @@ def c06(pid, tier, seed, selftest=False):
                               "file": {"hsrc": 0, "hdr": "ok", "recs": [{"src": 0, "idx": j} for j in range(len(ch))],
                                        "cut": -1, "trail": 0},
                               "rs": [], "ws": [], "fs": [], "rgen": [0, 70000, 5000][i % 3], "id": "o.%s%d" % (api[0], i)})
+    # conforming files read through sources that split the HEADER fields (magic, handshake message / salt) across calls
+    hdr_rs = [[1] * 8, ["allbut1"] * 4, [1, "allbut1", 1, "allbut1", 1, "allbut1"], [3, 1, 100, 27, 1]]
+    for i, rs in enumerate(hdr_rs):
+        for api in ("key", "pass"):
+            ch = [[5], [65536, 7], [0]][i % 3]
+            scenarios.append({"op": "dec", "api": api, "aad": "key" if api == "key" else "pass", "cs": 65536,
+                              "srcs": [{"chunks": ch, "kseed": 40 + i, "pseed": 3 + i, "rseed": 1 + i % 3, "pwseed": 1 + i % 4}],
+                              "rseed": 1 + i % 3, "pwseed": 1 + i % 4,
+                              "file": {"hsrc": 0, "hdr": "ok", "recs": [{"src": 0, "idx": j} for j in range(len(ch))],
+                                       "cut": -1, "trail": 0},
+                              "rs": rs, "ws": [], "fs": [], "rgen": [0, 7][i % 2], "id": "oh.%s%d" % (api[0], i)})
     for s in scenarios:
         if s["op"] == "enc":
             rep.case(cs_.key_of(s), len(s["exp"]["chunks"]) > 1)
@@ -426,6 +437,11 @@ def cli_clear(pid, tpl, seed, idx, plen, mode):
         with cli.Sandbox(pid, "c08") as sb:
             sb.write("kr.txt", cli.keyring_text([(names[0] + str(ident), ks, True), (names[1] + str(ident), kr, False)]))
             sb.write("plain.bin", bytes((i * 13 + 5) % 256 for i in range(plen)))
+            if idx % 2 == 1:
+                # the output path already holds a longer file that mentions the parties (an old note, an old ciphertext):
+                # nothing of it may survive in the new file
+                sb.write("o.ktl", (cli.keyring_text([(names[0] + str(ident), ks, False), (names[1] + str(ident), kr, False)]) * 3).encode()
+                         + b"x" * (plen + 4000))
             if mode == "key":
                 r = cli.kestrel(["encrypt", sb.path("plain.bin"), "-t", names[1] + str(ident), "-f", names[0] + str(ident), "-o", sb.path("o.ktl"),
                                  "-k", sb.path("kr.txt"), "--env-pass"], env={"KESTREL_PASSWORD": "pw-s"})
